@@ -26,8 +26,13 @@ type RunCtx struct {
 func (rc *RunCtx) Thorough() bool { return rc.Tier == "thorough" }
 
 // Expired reports whether the internal deadline has passed.
-func (rc *RunCtx) Expired() bool { return !rc.Deadline.IsZero() && time.Now().After(rc.Deadline) }
+func (rc *RunCtx) Expired() bool { return !rc.Deadline.IsZero() && realNow().After(rc.Deadline) }
 
 var registry = map[string]CheckFunc{}
 
+// needsBubble lists the checks whose body must run inside a testing/synctest bubble.
+var needsBubble = map[string]bool{}
+
 func register(id string, f CheckFunc) { registry[id] = f }
+
+func registerBubble(id string, f CheckFunc) { registry[id] = f; needsBubble[id] = true }
